@@ -1,6 +1,6 @@
 SPECIFICATION Spec
 CONSTANTS
-  MaxLen = 6
+  MaxLen = 5
   Macs = {"none", "obj", "fn", "tmpl"}
   ViewTail = 1
 INVARIANT TypeOK
